@@ -567,6 +567,10 @@ func (bx *BX) apply(fv BVal, args []BVal, fr *bframe, x *ast.CallExpr) BVal {
 			}
 			return True
 		}
+	case "concretize":
+		if strings.HasSuffix(bx.prog.Fset.Position(fi.Decl.Pos()).Filename, "_verif.go") {
+			return IntK(bx.concIntBig(args[0].(*Term), "concretize()"))
+		}
 	case "prove":
 		if strings.HasSuffix(bx.prog.Fset.Position(fi.Decl.Pos()).Filename, "_verif.go") {
 			t := bx.norm(args[0].(*Term))
